@@ -79,7 +79,7 @@ impl Check for C20 {
         "fault_enumeration"
     }
     fn rule(&self) -> String {
-        "run i (optimiser part): steps x inner_steps from {0,1,2,3,7,10,100,1000,1050}^2 (plus random inner 1..40), temperatures {0,1e-3,0.1,5}, schedules, convergence {None,0,1e-9,1e-3,1e9}, every landscape kind; optimise_state under catch_unwind; runs with a convergence threshold are executed with their twin without it. Every 8th run (CLI part): one execution of the shipped binary in a fresh scratch directory: a valid group/shape/potential/replication/step invocation from the swarm, combined with one fault from the finite list {none, ENOENT parent, ENOTDIR parent, EISDIR json, EISDIR svg, ENOSPC json, ENOSPC svg (/dev/full symlinks), polygon+LJ, sides<3, replications 0, steps 0, inner-steps 0, unknown group, missing start-config}. Non-trivial: a zero-length or inner>steps configuration, an early exit, a history with accepts and rejects, or any process execution. Distinct: distinct history hashes (process: exit status, normalised stderr, output bytes).".into()
+        "run i (optimiser part): steps x inner_steps from {0,1,2,3,7,10,100,1000,1050}^2 (plus random inner 1..40), temperatures {0,1e-3,0.1,5}, schedules, convergence {None,0,1e-9,1e-3,1e9}, every landscape kind; optimise_state under catch_unwind; runs with a convergence threshold are executed with their twin without it. Every 8th run (CLI part): one execution of the shipped binary in a fresh scratch directory: a valid group/shape/potential/replication/step invocation from the swarm, combined with one fault from the finite list {none, ENOENT parent, ENOTDIR parent, EISDIR json, EISDIR svg, ENOSPC json, ENOSPC svg (/dev/full symlinks), polygon+LJ, sides<3, replications 0, steps 0, inner-steps 0, unknown group, missing start-config, valid start-config of another group, stale output files}. Non-trivial: a zero-length or inner>steps configuration, an early exit, a history with accepts and rejects, or any process execution. Distinct: distinct history hashes (process: exit status, normalised stderr, output bytes).".into()
     }
     fn runs(&self, tier: Tier) -> u64 {
         match tier {
